@@ -763,7 +763,10 @@ pub fn c09_parts(quick: bool) -> (Vec<EwSpec>, Vec<Scenario>) {
                 // gets through between the last retransmission and the moment of giving up)
                 if lname == "none" || lname == "one" {
                     let mut envt = envb; envt.blackout_lens = &[4, 20, 38, 39, 40, 41, 42, 43, 44, 45, 46]; envt.max_rounds = 170;
-                    scs.push(sc(&format!("C09.blackout-ends.{}.{}{}", lname, if who == 0 { "client" } else { "server" }, if now { "-now" } else { "" }), &cfg, script, envt, 1, EO_C09 | EO_C08 | EO_C10));
+                    scs.push(sc(&format!("C09.blackout-ends.{}.{}{}", lname, if who == 0 { "client" } else { "server" }, if now { "-now" } else { "" }), &cfg, script.clone(), envt.clone(), 1, EO_C09 | EO_C08 | EO_C10));
+                    // the peer of the endpoint that closes has a long active time-out: it still knows the connection when the last retransmission arrives
+                    let mut cfgl = cfg.clone(); cfgl.server.active_timeout_ms = 60_000; cfgl.clients[0].active_timeout_ms = 60_000;
+                    scs.push(sc(&format!("C09.blackout-ends.long-timeouts.{}.{}{}", lname, if who == 0 { "client" } else { "server" }, if now { "-now" } else { "" }), &cfgl, script, envt, 1, EO_C09 | EO_C08 | EO_C10));
                 }
             }
         }
